@@ -3,9 +3,9 @@ CONSTANTS
   NReq = 4
   Caps = {2, 3, 4}
   Kinds = {"read", "write"}
-  WhoPats = {"alt"}
+  WhoPats = {"same", "alt"}
   Resets = TRUE
-  Quiets = {TRUE, FALSE}
+  Quiets = {FALSE}
 INVARIANT TypeOK
 INVARIANT InOrder
 INVARIANT OwnResult
